@@ -11,7 +11,18 @@ def trace(scale_q=1, scale_t=8, **kw):
     return d
 
 
+MC_COMPACT = dict(module="MC_Compact", cfg="MC_Compact.cfg", cfg_thorough="MC_Compact_thorough.cfg", workers=8)
+GEN_COMPACT = dict(module="Gen_Compact", cfg="Gen_Compact.cfg", cfg_thorough="Gen_Compact_thorough.cfg")
+
 PROPS = {
+    "C04": dict(level="model_checking", mc=[MC_COMPACT], steps=[
+        dict(kind="gen_vectors", mc=GEN_COMPACT, out="cvec.ndjson"),
+        trace(1, 1, tag="vec", args=["--part", "vec"], vectors="cvec.ndjson"),
+        trace(1, 1, tag="exh", args=["--part", "exh"]),
+        trace(1, 10, tag="rnd", args=["--part", "rnd"]),
+    ], rule="exhaustive: every u8 and u16 value and every byte string of length <= 2 (thorough: length 3 with boundary third byte) through all five decoders; "
+            "TLC-generated class-boundary value/string families for 32/64/128 bit; boundary-biased random values and mutated strings; "
+            "non-trivial = at least one byte, distinct by (width, kind, bytes, value)"),
     "C01": dict(level="model_checking", mc=[MC_FORMAT], steps=[trace()]),
     "C02": dict(level="model_checking", mc=[MC_FORMAT], steps=[trace(1, 4)]),
     "C03": dict(level="model_checking", mc=[MC_FORMAT], steps=[trace(2, 16)]),
